@@ -18,6 +18,7 @@ package rules
 
 import (
 	"slices"
+	"strings"
 	"sync"
 
 	"github.com/dadrus/heimdall/internal/heimdall"
@@ -59,7 +60,7 @@ func (r *repository) FindRule(ctx heimdall.Context) (rule.Rule, error) {
 	defer r.rulesTreeMutex.RUnlock()
 
 	entry, err := r.index.Find(
-		x.IfThenElse(len(request.URL.RawPath) != 0, request.URL.RawPath, request.URL.Path),
+		normalizePath(x.IfThenElse(len(request.URL.RawPath) != 0, request.URL.RawPath, request.URL.Path)),
 		radixtree.LookupMatcherFunc[rule.Route](func(route rule.Route, keys, values []string) bool {
 			return route.Matches(ctx, keys, values)
 		}),
@@ -191,4 +192,59 @@ func (r *repository) removeRulesFrom(tree *radixtree.Tree[rule.Route], tbdRules 
 	}
 
 	return nil
+}
+
+// normalizePath converts the given (escaped) path into its normalized form according to RFC 3986,
+// section 6.2.2: percent-encoded unreserved characters are equivalent to the characters themselves and are
+// decoded, the hex digits of all other percent-encoded octets are converted to upper case. Otherwise,
+// the very same resource could be addressed by paths, which do not match the path expressions of the
+// rules defined for it.
+func normalizePath(path string) string {
+	if !strings.Contains(path, "%") {
+		return path
+	}
+
+	var builder strings.Builder
+
+	builder.Grow(len(path))
+
+	for idx := 0; idx < len(path); idx++ {
+		if path[idx] != '%' || idx+2 >= len(path) || !isHex(path[idx+1]) || !isHex(path[idx+2]) { //nolint:mnd
+			builder.WriteByte(path[idx])
+
+			continue
+		}
+
+		char := unHex(path[idx+1])<<4 | unHex(path[idx+2]) //nolint:mnd
+		if isUnreserved(char) {
+			builder.WriteByte(char)
+		} else {
+			builder.WriteByte('%')
+			builder.WriteString(strings.ToUpper(path[idx+1 : idx+3]))
+		}
+
+		idx += 2
+	}
+
+	return builder.String()
+}
+
+func isUnreserved(char byte) bool {
+	return (char >= 'a' && char <= 'z') || (char >= 'A' && char <= 'Z') || (char >= '0' && char <= '9') ||
+		char == '-' || char == '.' || char == '_' || char == '~'
+}
+
+func isHex(char byte) bool {
+	return (char >= '0' && char <= '9') || (char >= 'a' && char <= 'f') || (char >= 'A' && char <= 'F')
+}
+
+func unHex(char byte) byte {
+	switch {
+	case char >= '0' && char <= '9':
+		return char - '0'
+	case char >= 'a' && char <= 'f':
+		return char - 'a' + 10 //nolint:mnd
+	default:
+		return char - 'A' + 10 //nolint:mnd
+	}
 }
